@@ -7,6 +7,7 @@
 From Coq Require Import List Arith Bool Lia Reals.
 Import ListNotations.
 From PP Require Import Model.C14 Proofs.C14.
+Require PP.Proofs.C14_graph PP.Proofs.C14_all.
 Local Open Scope R_scope.
 
 (* Gluing: sum over the subproblems of the local results with the rows outside
@@ -71,6 +72,63 @@ Theorem C14_certificate_sound :
 Proof. exact family_ok_sound. Qed.
 Print Assumptions C14_certificate_sound.
 
+(* The family built by _fvutils.subproblems (model) satisfies the certificate for EVERY
+   consistent grid, number of parts and partition vector: the structural hypotheses of
+   C14_split_sum are theorems about the bookkeeping, not per-case checks. *)
+Theorem C14_subproblems_family_ok :
+  forall (g : grid) (k : nat) (part : list nat), Proofs.C14_graph.grid_ok g ->
+    length part = length (cell_nodes g) ->
+    family_ok (length (face_nodes g)) (subproblems g k part) = true.
+Proof. exact Proofs.C14_graph.subproblems_family_ok. Qed.
+Print Assumptions C14_subproblems_family_ok.
+
+Theorem C14_grid_certificate_sound :
+  forall g : grid, grid_okb g = true -> Proofs.C14_graph.grid_ok g.
+Proof. exact Proofs.C14_graph.grid_okb_sound. Qed.
+Print Assumptions C14_grid_certificate_sound.
+
+(* hence: on every consistent grid, for every partition, local matrices that are exact on
+   the faces their subproblem is responsible for glue to the one-piece matrix *)
+Theorem C14_split_sum_on_grid :
+  forall (G : lmat) (g : grid) (k : nat) (pvec : list nat) (ps : list part),
+    grid_okb g = true -> length pvec = length (cell_nodes g) ->
+    map fst ps = subproblems g k pvec -> Forall (local_ok G) ps ->
+    forall f c, (f < length (face_nodes g))%nat ->
+      assemble (length (face_nodes g)) ps f c = G f c.
+Proof. exact Proofs.C14_all.split_sum_on_grid. Qed.
+Print Assumptions C14_split_sum_on_grid.
+
+(* Locality from the overlap (graph part): in the "nodes" mode used for splitting, every
+   cell around every node of an active face is in the subgrid, with all its faces; in the
+   "cells" and "faces" modes every cell around every node of an active face is in the
+   subgrid.  (That the kernel's rows of a face depend only on these cells stays the
+   hypothesis local_ok.) *)
+Theorem C14_locality_from_overlap :
+  forall (g : grid) (N : list nat) (f v c : nat),
+    In f (snd (stencil_nodes g N)) -> In v (nth f (face_nodes g) []) ->
+    (c < length (cell_nodes g))%nat -> In v (nth c (cell_nodes g) []) ->
+    In c (fst (stencil_nodes g N)) /\
+    (forall f', In f' (nth c (cell_faces g) []) -> (f' < length (face_nodes g))%nat ->
+                In f' (faces_of_cells g (fst (stencil_nodes g N)))).
+Proof. exact Proofs.C14_graph.locality_nodes. Qed.
+Print Assumptions C14_locality_from_overlap.
+
+Theorem C14_locality_cells_mode :
+  forall (g : grid) (cells : list nat) (f v c : nat), Proofs.C14_graph.grid_ok g ->
+    In f (snd (stencil_cells g cells)) -> In v (nth f (face_nodes g) []) ->
+    (c < length (cell_nodes g))%nat -> In v (nth c (cell_nodes g) []) ->
+    In c (fst (stencil_cells g cells)).
+Proof. exact Proofs.C14_graph.locality_cells. Qed.
+Print Assumptions C14_locality_cells_mode.
+
+Theorem C14_locality_faces_mode :
+  forall (g : grid) (prev faces : list nat) (f v c : nat), Proofs.C14_graph.grid_ok g ->
+    In f (snd (stencil_faces g prev faces)) -> In v (nth f (face_nodes g) []) ->
+    (c < length (cell_nodes g))%nat -> In v (nth c (cell_nodes g) []) ->
+    In c (fst (stencil_faces g prev faces)).
+Proof. exact Proofs.C14_graph.locality_faces. Qed.
+Print Assumptions C14_locality_faces_mode.
+
 (* ---------------------------------------------------------------- non-vacuity *)
 Local Close Scope R_scope.
 
@@ -99,3 +157,11 @@ Proof.
   cbn zeta. split; [vm_compute; reflexivity|].
   repeat constructor; intros k c _ _; reflexivity.
 Qed.
+
+Example C14_nonvacuous_grid :
+  grid_okb C14_g = true /\ length [0; 1] = length (cell_nodes C14_g) /\
+  snd (stencil_nodes C14_g [0; 1; 3; 4]) = [0; 1; 3; 5] /\
+  fst (stencil_nodes C14_g [0; 1; 3; 4]) = [0; 1] /\
+  stencil_cells C14_g [0] = ([0; 1], [0; 1; 3; 4; 5; 6]) /\
+  stencil_faces C14_g [] [0] = ([0; 1], [0; 3; 5]).
+Proof. vm_compute. repeat split; reflexivity. Qed.
